@@ -18,6 +18,9 @@ on event synchronization and event coincidence analysis
 """
 
 # array object and fast numerics
+from typing import Tuple
+from collections.abc import Hashable
+
 import numpy as np
 
 from ..eventseries import EventSeries
@@ -194,6 +197,14 @@ class EventSeriesClimateNetwork(EventSeries, ClimateNetwork):
                                 similarity_measure=measure_matrix,
                                 threshold=0, directed=self.directed,
                                 **CN_kwargs)
+
+    def __cache_state__(self) -> Tuple[Hashable, ...]:
+        try:
+            network_state = ClimateNetwork.__cache_state__(self)
+        except AttributeError:
+            # network part not initialised yet
+            network_state = ()
+        return EventSeries.__cache_state__(self) + network_state
 
     def __str__(self):
         """
